@@ -10,7 +10,9 @@ RULE = ("random ordered pairs of epsilon-NFA/NFA/DFA specs (0-4 states, shared 1
         "complement, difference, reverse) and by exact language equivalence with verified reference "
         "constructions (all seven). Non-trivial: first operand has >=2 states, >=2 transitions, a start and "
         "a final state.")
-THEOREMS = ["Pfl.ENFA.unionR_lang",
+THEOREMS = ["Pfl.ENFA.inter_isSome",
+            "Pfl.ENFA.inter_total",
+            "Pfl.ENFA.unionR_lang",
             "Pfl.ENFA.concatR_lang",
             "Pfl.ENFA.starR_lang",
             "Pfl.ENFA.inter_lang",
